@@ -38,10 +38,15 @@ type State struct {
 	rootEpoch map[string]int
 	alloc     string
 	ghost     map[string]string
+	ver       map[string]string // per heap root: version token, changes on every write
+	gver      string            // global version token
 }
 
 func (s *State) clone() *State {
-	n := &State{heap: make(map[string]string, len(s.heap)), epoch: s.epoch, rootEpoch: map[string]int{}, alloc: s.alloc, ghost: map[string]string{}}
+	n := &State{heap: make(map[string]string, len(s.heap)), epoch: s.epoch, rootEpoch: map[string]int{}, alloc: s.alloc, ghost: map[string]string{}, ver: map[string]string{}, gver: s.gver}
+	for k, v := range s.ver {
+		n.ver[k] = v
+	}
 	for k, v := range s.heap {
 		n.heap[k] = v
 	}
@@ -101,6 +106,7 @@ type Enc struct {
 	edgeCond map[[2]int]string // [from block index, succ slot]
 	nfresh   int
 	nepoch   int
+	nver     int
 	notes    []string
 	noteSet  map[string]bool
 	ords     map[string]int
@@ -121,6 +127,10 @@ type Enc struct {
 	useStr   bool
 	boxDecl  map[string]bool
 	iterInfo map[ssa.Value]*iterState
+	disabledAuto map[string]bool
+	retWit   []WitnessTerm
+	irowTags map[string]int
+	irowSeen map[string]bool
 	domDepth map[*ssa.BasicBlock]int
 	failed   error
 }
@@ -262,7 +272,13 @@ func (e *Enc) oblige(kind string, named string, claim string, pos token.Pos, des
 	if e.curBlock != nil {
 		pc = e.pc[e.curBlock]
 	}
-	return e.obligeAt(pc, kind, named, claim, pos, desc)
+	o := e.obligeAt(pc, kind, named, claim, pos, desc)
+	// assert-then-assume: execution continues past this point only if the claim
+	// held (a failed check panics), so later obligations are not cascades of it.
+	if e.curBlock != nil && (strings.HasPrefix(kind, "safe.") || kind == "pre" || kind == "assert") {
+		e.assumeHere(claim)
+	}
+	return o
 }
 
 func (e *Enc) obligeAt(pc, kind, named, claim string, pos token.Pos, desc string) *Obligation {
@@ -316,6 +332,36 @@ func (e *Enc) heapGet(st *State, hk *heapKey) string {
 
 func (e *Enc) heapSet(st *State, hk *heapKey, term string) {
 	st.heap[hk.Key] = e.define("h", hk.Sort, term)
+	e.bumpVer(st, hk.Root)
+}
+
+// bumpVer records that heap root was written (version tokens feed pure functions).
+func (e *Enc) bumpVer(st *State, root string) {
+	if st.ver == nil {
+		st.ver = map[string]string{}
+	}
+	e.nver++
+	st.ver[root] = fmt.Sprintf("%d", e.nver)
+	st.gver = fmt.Sprintf("%d", e.nver)
+}
+
+func (e *Enc) bumpAllVer(st *State) {
+	e.nver++
+	st.ver = map[string]string{"*": fmt.Sprintf("%d", e.nver)}
+	st.gver = fmt.Sprintf("%d", e.nver)
+}
+
+// verToken returns the version of a heap root in a state.
+func (e *Enc) verToken(st *State, root string) string {
+	if st.ver != nil {
+		if v, ok := st.ver[root]; ok {
+			return v
+		}
+		if v, ok := st.ver["*"]; ok {
+			return v
+		}
+	}
+	return "0"
 }
 
 // locAccess describes how to reach one scalar leaf of a pointed-to value.
@@ -326,47 +372,140 @@ type locAccess struct {
 }
 
 // accesses enumerates the heap accesses for the value of type T at pointer p.
+// Arrays embedded in structs live in their own element rows, addressed by the
+// injective function irow(tag, ref, idx) (always negative, so distinct from
+// allocated references).
 func (e *Enc) accesses(p *Val, T types.Type) []locAccess {
 	root := p.Root
 	if root == nil {
 		return nil
 	}
-	// walk the static path to build the path key and index terms
 	var pk strings.Builder
 	idx := []string{p.L[0], p.L[1]}
-	dims := 0
+	var prefix []int
 	for _, s := range p.Path {
-		if s.Field >= 0 {
-			fmt.Fprintf(&pk, "/%d", s.Field)
-		} else {
-			pk.WriteString("/[]")
-			idx = append(idx, s.Index)
-			dims++
+		if s.Field < 0 {
+			e.fail("internal: index step in pointer path")
 		}
+		fmt.Fprintf(&pk, "/%d", s.Field)
+		prefix = append(prefix, s.Field)
 	}
 	var out []locAccess
 	for _, lf := range typeLeaves(T) {
-		hk := e.hkey(root, pk.String()+lf.PathKey(), lf, dims+lf.Dims)
-		out = append(out, locAccess{HK: hk, Idx: idx, Leaf: lf})
+		if lf.Dims == 0 {
+			hk := e.hkey(root, pk.String()+lf.PathKey(), lf, 0)
+			out = append(out, locAccess{HK: hk, Idx: idx, Leaf: lf})
+			continue
+		}
+		// split at the first array step
+		k := 0
+		for k < len(lf.Path) && lf.Path[k] >= 0 {
+			k++
+		}
+		rest := lf.Path[k+1:]
+		nested := false
+		for _, r := range rest {
+			if r < 0 {
+				nested = true
+			}
+		}
+		elemT := typeAtPath(T, lf.Path[:k+1])
+		if nested || elemT == nil {
+			e.note("nested arrays inside %v: content not tracked", T)
+			hk := e.hkeyNamed(types.Typ[types.UnsafePointer], "/untracked:"+typeKey(root)+pk.String()+lf.PathKey(), arraySort(lf.Sort, lf.Dims))
+			out = append(out, locAccess{HK: hk, Idx: idx, Leaf: lf})
+			continue
+		}
+		var tag strings.Builder
+		tag.WriteString(typeKey(root) + pk.String())
+		for _, f := range lf.Path[:k] {
+			fmt.Fprintf(&tag, "/%d", f)
+		}
+		row := e.irow(tag.String(), p.L[0], p.L[1])
+		sub := Leaf{Path: rest, Sort: lf.Sort, T: lf.T}
+		hk := e.hkey(elemT, sub.PathKey(), sub, 0)
+		out = append(out, locAccess{HK: hk, Idx: []string{row}, Leaf: lf})
 	}
 	return out
 }
 
 // pointeeIsRow reports whether p (pointer to array type) designates a standalone
-// row of elements (Root = element type, empty path) rather than an interior array.
+// row of elements (Root = element type, empty path) rather than an embedded array.
 func pointeeIsRow(p *Val, arr *types.Array) bool {
 	return len(p.Path) == 0 && p.Root != nil && types.Identical(p.Root, arr.Elem())
 }
 
+// typeAtPath follows field indices / array steps (-1) from T; returns the type reached.
+func typeAtPath(T types.Type, path []int) types.Type {
+	cur := T
+	for _, s := range path {
+		switch u := cur.Underlying().(type) {
+		case *types.Struct:
+			if s < 0 || s >= u.NumFields() {
+				return nil
+			}
+			cur = u.Field(s).Type()
+		case *types.Array:
+			if s != -1 {
+				return nil
+			}
+			cur = u.Elem()
+		case *types.Tuple:
+			if s < 0 || s >= u.Len() {
+				return nil
+			}
+			cur = u.At(s).Type()
+		default:
+			return nil
+		}
+	}
+	return cur
+}
+
+// irow names the element row of an array embedded at (tag) inside object (ref, idx).
+func (e *Enc) irow(tag, ref, idx string) string {
+	tg, ok := e.irowTags[tag]
+	if !ok {
+		if e.irowTags == nil {
+			e.irowTags = map[string]int{}
+		}
+		tg = len(e.irowTags) + 1
+		e.irowTags[tag] = tg
+	}
+	t := fmt.Sprintf("(irow %d %s %s)", tg, ref, idx)
+	if !e.irowSeen[t] {
+		if e.irowSeen == nil {
+			e.irowSeen = map[string]bool{}
+		}
+		e.irowSeen[t] = true
+		e.assume(fmt.Sprintf("(and (< %s 0) (= (irow_tag %s) %d) (= (irow_ref %s) %s) (= (irow_idx %s) %s))", t, t, tg, t, ref, t, idx))
+	}
+	return t
+}
+
+// rowPtr converts a pointer to an array (standalone row or embedded array) into the
+// (row, offset) pair addressing its elements.
+func (e *Enc) rowPtr(p *Val, arr *types.Array) *Val {
+	if pointeeIsRow(p, arr) {
+		return p
+	}
+	var tag strings.Builder
+	tag.WriteString(typeKey(p.Root))
+	for _, s := range p.Path {
+		fmt.Fprintf(&tag, "/%d", s.Field)
+	}
+	return &Val{T: p.T, L: []string{e.irow(tag.String(), p.L[0], p.L[1]), "0"}, Root: arr.Elem()}
+}
+
 func (e *Enc) load(st *State, p *Val, T types.Type) *Val {
-	if arr, ok := T.Underlying().(*types.Array); ok && pointeeIsRow(p, arr) {
+	if arr, ok := T.Underlying().(*types.Array); ok {
+		p = e.rowPtr(p, arr)
 		// whole-array load from a row: value leaves are the row itself (assumes idx 0)
 		elemPtr := &Val{T: types.NewPointer(arr.Elem()), L: p.L, Root: p.Root}
 		v := &Val{T: T}
 		for _, a := range e.accesses(elemPtr, arr.Elem()) {
 			v.L = append(v.L, sSel(e.heapGet(st, a.HK), a.Idx[0]))
 		}
-		e.note("whole-array load through pointer assumes row offset 0")
 		return v
 	}
 	v := &Val{T: T}
@@ -384,7 +523,8 @@ func (e *Enc) load(st *State, p *Val, T types.Type) *Val {
 }
 
 func (e *Enc) store(st *State, p *Val, T types.Type, v *Val) {
-	if arr, ok := T.Underlying().(*types.Array); ok && pointeeIsRow(p, arr) {
+	if arr, ok := T.Underlying().(*types.Array); ok {
+		p = e.rowPtr(p, arr)
 		elemPtr := &Val{T: types.NewPointer(arr.Elem()), L: p.L, Root: p.Root}
 		for i, a := range e.accesses(elemPtr, arr.Elem()) {
 			e.heapSet(st, a.HK, "(store "+e.heapGet(st, a.HK)+" "+a.Idx[0]+" "+v.L[i]+")")
@@ -484,7 +624,6 @@ func (e *Enc) typeInvFormula(st *State, v *Val) string {
 		case *types.Pointer:
 			sub := lf.Path[len(lf.Path)-1]
 			if sub == 1000 {
-				fs = append(fs, "(>= "+t+" 0)")
 				if st != nil {
 					fs = append(fs, "(<= "+t+" "+st.alloc+")")
 				}
@@ -495,7 +634,7 @@ func (e *Enc) typeInvFormula(st *State, v *Val) string {
 			sub := lf.Path[len(lf.Path)-1]
 			if sub == 1000 {
 				ref, off, ln, cp := v.L[i], v.L[i+1], v.L[i+2], v.L[i+3]
-				fs = append(fs, "(>= "+ref+" 0)", "(>= "+off+" 0)", "(>= "+ln+" 0)", "(<= "+ln+" "+cp+")",
+				fs = append(fs, "(>= "+off+" 0)", "(>= "+ln+" 0)", "(<= "+ln+" "+cp+")",
 					"(=> (= "+ref+" 0) (= "+cp+" 0))", "(<= "+cp+" 4611686018427387904)")
 				if st != nil {
 					fs = append(fs, "(<= "+ref+" "+st.alloc+")")
